@@ -3,6 +3,7 @@ import json
 import os
 import sys
 
+from harness import watch
 from harness import machine_prop
 from harness.props._machine_common import TRUSTED, ASSUMPTIONS, RULE  # noqa
 
@@ -143,7 +144,7 @@ def reused_conditions(ctx, n):
             await user('outer')
         try:
             for k in range(runs):
-                usim.run(outer() if nested else user(k))
+                watch.run(outer() if nested else user(k))
                 if runs > 3:
                     import gc
                     gc.collect()       # the finished loop is really gone (and its address free) before the next one
@@ -191,7 +192,7 @@ def exact_clocks(ctx, n):
             await (time + 100)
             log.append(('late', time.now))
         try:
-            usim.run(main(), start=start, till=start + d1 + d2 + d3 + 50)
+            watch.run(main(), start=start, till=start + d1 + d2 + d3 + 50)
         except BaseException as e:   # noqa
             ctx.fail(case, 'raised %r' % (e,), family='exact-clocks')
             continue
